@@ -110,7 +110,7 @@ Definition suffix (k : kind) : string :=
 Definition is_later (era : string) : bool := negb (String.eqb era "alonzo").
 (* every era has its own copy of the four functions *)
 Definition expected (era : string) (k : kind) : string := (era ++ ".UtxoValidate" ++ suffix k)%string.
-Definition rule_table : list (string * (kind * bool)) :=
+Definition rule_table : list (string * (kind * bool)) := Eval vm_compute in
   flat_map (fun era => map (fun k => (expected era k, (k, is_later era))) kinds) eras4.
 
 Fixpoint assoc {A} (k : string) (l : list (string * A)) : option A :=
@@ -143,12 +143,17 @@ Definition run_kind (rules : list string) (k : kind) (t : tx) : result :=
 Record case := mk_case {
   k_era : string; k_nred : N; k_inputs : list (option output); k_fee : Z; k_ret : option output;
   k_pct : Z; k_max : Z; k_obs : list result }.
+(* per era and clause, the entries of the real list that implement the clause
+   (computed once; Proofs.kind_table_ok ties it to kind_names/rules_of) *)
+Definition kind_table_def : list (string * list (kind * list string)) :=
+  map (fun era => (era, map (fun k => (k, match rules_of era with Some rs => kind_names rs k | None => [] end)) kinds)) eras4.
+Definition kind_table : list (string * list (kind * list string)) := Eval vm_compute in kind_table_def.
 Definition check_case (c : case) : bool :=
-  match rules_of (k_era c) with
+  match assoc (k_era c) kind_table with
   | None => false
-  | Some rs =>
+  | Some kt =>
     let t := mk_tx (k_nred c) (k_inputs c) (k_fee c) (k_ret c) (k_pct c) (k_max c) in
-    list_eqb result_eqb (map (fun k => run_kind rs k t) kinds) (k_obs c)
+    list_eqb result_eqb (map (fun kn => verify (fun _ _ => ROk) (snd kn) t) kt) (k_obs c)
   end.
 Definition mismatches : list case -> list nat := failing check_case.
 
